@@ -1,17 +1,26 @@
 import OpusModel.Kernels
+import OpusModel.Gen.DispatchTables
 import Driver.Util
 /-
   Suite `kernels` (C15): the Lean models of OpusModel/Kernels.lean evaluated over ℤ (exact domain) and
   printed as IEEE-754 bit patterns, the integer VQ kernel, the arch decision list and the dispatch-table spec.
 
-    inner <xs> <ys>                         celt_inner_prod_sse            -> f<8 hex>
-    dual <xs> <y1s> <y2s>                   dual_inner_prod_sse            -> f.. f..
-    xcorr4 <len> <xs> <ys> <sum0..3>        xcorr_kernel_sse               -> f..,f..,f..,f..
-    pitchxcorr <len> <maxpitch> <xs> <ys>   celt_pitch_xcorr_avx2          -> f..,…   (maxpitch values)
-    comb <T> <N> <g10> <g11> <g12> <xs>     comb_filter_const_sse, y ≠ x   -> f..,…   (4*(N/4) values)
-    combip <T> <N> <g10> <g11> <g12> <xs>   the same in place (y = x)      -> f..,…
-    flp c|avx2 <xs> <ys>                    silk_inner_product_FLP_*       -> d<16 hex>
-    vqwmat c|sse <XX> <xX> <cb> <cbgain> <cl> <subfr> <maxgain> <L>        -> ind=.. res=.. rate=.. gain=..
+  `<vs>` is a comma-separated list of *variants* of the kernel that the harness ran on the same data:
+     c            the portable function            sse / sse4_1 / avx2   the SIMD function, called by symbol
+     a0 … a4      the codec's own call macro (`celt_inner_prod(x,y,N,arch)` …) with that arch value; the model
+                  resolves it through the regenerated dispatch table, or — when the kernel's level is presumed at
+                  compile time and there is no table — to the presumed SIMD function.
+  The answer is `v=<result>` for every requested variant, in order; each variant is evaluated with *its own*
+  Lean definition (lane structure included), so a disagreement names the variant.
+
+    inner <vs> <xs> <ys>                         celt_inner_prod                -> v=f<8 hex>
+    dual <vs> <xs> <y1s> <y2s>                   dual_inner_prod                -> v=f..,f..
+    xcorr4 <vs> <len> <xs> <ys> <sum0..3>        xcorr_kernel (ys: len+3)       -> v=f..,f..,f..,f..
+    pitchxcorr <vs> <len> <maxpitch> <xs> <ys>   celt_pitch_xcorr (ys: len+maxpitch-1) -> v=f..,…  (maxpitch values)
+    comb <vs> <T> <N> <g10> <g11> <g12> <xs>     comb_filter_const, y ≠ x       -> v=f..,…   (4*(N/4) values)
+    combip <vs> <T> <N> <g10> <g11> <g12> <xs>   the same in place (y = x)      -> v=f..,…
+    flp <vs> <xs> <ys>                           silk_inner_product_FLP         -> v=d<16 hex>
+    vqwmat <vs> <XX> <xX> <cb> <cbgain> <cl> <subfr> <maxgain> <L>  silk_VQ_WMat_EC -> v=ind:res:rate:gain
     selectarch <nIds> <ecx1> <edx1> <ebx7> <cap|->                         -> arch
     dispatch <TABLE> <mask> <a>                                            -> symbol the table must hold at index a
 -/
@@ -41,9 +50,9 @@ def f64Bits (n : Int) : String :=
     let mant := (a * 2 ^ (52 - e)) % 4503599627370496
     "d" ++ hex ((if n < 0 then 9223372036854775808 else 0) + (e + 1023) * 4503599627370496 + mant) 16
 
-def mem (l : List Int) : Nat → Int :=
-  let a := l.toArray
-  fun i => a.getD i 0
+/-- memory as an index function over an array built once per line (out-of-range reads give 0; the harness
+    allocates exact-size blocks, so the real kernels cannot read there without an ASan report). -/
+@[inline] def mem (a : Array Int) : Nat → Int := fun i => a.getD i 0
 
 def f32List (l : List Int) : String := ",".intercalate (l.map f32Bits)
 
@@ -54,69 +63,143 @@ def combInPlace (buf : Array Int) (T N : Nat) (g10 g11 g12 : Int) : Array Int :=
     let x := fun (j : Nat) => b.getD j 0
     b.setIfInBounds (i + T + 2) (combC x T g10 g11 g12 i)) buf
 
+/-- the symbol the codec's call macro reaches for kernel table `table` at arch value `a`: the regenerated
+    table's entry when the table exists, else the function presumed at compile time. -/
+def dispatched (table : String) (a : Nat) : Option String :=
+  match specOf table with
+  | none => none
+  | some k =>
+    match Opus.Gen.DispatchTables.tables.find? (fun t => t.1 == table) with
+    | some t => t.2.2[a]?
+    | none => some (symbolAt k (presumedLevel Opus.Gen.DispatchTables.presume))
+
+/-- variant token → symbol name. -/
+def symbolOf (table : String) (v : String) : Option String :=
+  match specOf table with
+  | none => none
+  | some k =>
+    if v = "c" then some k.base
+    else match v.toList with
+      | ['a', d] => if '0' ≤ d ∧ d ≤ '4' then dispatched table (d.toNat - '0'.toNat) else none
+      | _ =>
+        match k.levels.find? (fun ls => ls.2 == (k.base.dropEnd 1).toString ++ v) with
+        | some ls => some ls.2
+        | none => none
+
+/-- run `f sym` for every variant and join `v=result`. -/
+def perVariant (table : String) (vs : String) (f : String → Option String) : String :=
+  let out := (vs.splitOn ",").map (fun v =>
+    match symbolOf table v with
+    | none => none
+    | some sym => (f sym).map (fun r => v ++ "=" ++ r))
+  if vs = "" || out.any (·.isNone) then "bad-op" else " ".intercalate (out.filterMap id)
+
+def range4 (r : Nat → Int) : String := f32List [r 0, r 1, r 2, r 3]
+
 def handle : List String → String
-  | ["inner", xs, ys] =>
+  | ["inner", vs, xs, ys] =>
     match parseIntList xs, parseIntList ys with
     | some x, some y =>
-      if x.length != y.length then "bad-op" else f32Bits (innerProdSse (mem x) (mem y) x.length)
+      if x.length != y.length then "bad-op"
+      else
+      let x := x.toArray; let y := y.toArray
+      perVariant "CELT_INNER_PROD_IMPL" vs (fun sym =>
+        if sym = "celt_inner_prod_c" then some (f32Bits (innerProdC (mem x) (mem y) x.size))
+        else if sym = "celt_inner_prod_sse" then some (f32Bits (innerProdSse (mem x) (mem y) x.size))
+        else none)
     | _, _ => "bad-op"
-  | ["dual", xs, y1s, y2s] =>
+  | ["dual", vs, xs, y1s, y2s] =>
     match parseIntList xs, parseIntList y1s, parseIntList y2s with
     | some x, some y1, some y2 =>
       if x.length != y1.length || x.length != y2.length then "bad-op"
       else
-        let r := dualInnerProdSse (mem x) (mem y1) (mem y2) x.length
-        s!"{f32Bits r.1} {f32Bits r.2}"
+      let x := x.toArray; let y1 := y1.toArray; let y2 := y2.toArray
+      perVariant "DUAL_INNER_PROD_IMPL" vs (fun sym =>
+        let pr := fun (r : Int × Int) => s!"{f32Bits r.1},{f32Bits r.2}"
+        if sym = "dual_inner_prod_c" then some (pr (dualInnerProdC (mem x) (mem y1) (mem y2) x.size))
+        else if sym = "dual_inner_prod_sse" then some (pr (dualInnerProdSse (mem x) (mem y1) (mem y2) x.size))
+        else none)
     | _, _, _ => "bad-op"
-  | ["xcorr4", len, xs, ys, sums] =>
+  | ["xcorr4", vs, len, xs, ys, sums] =>
     match parseNat len, parseIntList xs, parseIntList ys, parseIntList sums with
     | some len, some x, some y, some s =>
       if x.length != len || y.length != len + 3 || s.length != 4 then "bad-op"
       else
-        let r := xcorrKernelSse (mem x) (mem y) (mem s) len
-        f32List [r 0, r 1, r 2, r 3]
+      let x := x.toArray; let y := y.toArray; let s := s.toArray
+      perVariant "XCORR_KERNEL_IMPL" vs (fun sym =>
+        -- xcorr_kernel_c has `celt_assert(len>=3)` (pitch.h:68); the harness does not call it below that
+        if sym = "xcorr_kernel_c" then
+          (if len < 3 then none else some (range4 (xcorrKernelC (mem x) (mem y) (mem s) len)))
+        else if sym = "xcorr_kernel_sse" then some (range4 (xcorrKernelSse (mem x) (mem y) (mem s) len))
+        else none)
     | _, _, _, _ => "bad-op"
-  | ["pitchxcorr", len, mp, xs, ys] =>
+  | ["pitchxcorr", vs, len, mp, xs, ys] =>
     match parseNat len, parseNat mp, parseIntList xs, parseIntList ys with
     | some len, some mp, some x, some y =>
-      if x.length != len || y.length != len + mp || mp = 0 then "bad-op"
-      else f32List ((List.range mp).map (pitchXcorrAvx2 (mem x) (mem y) len mp))
+      if x.length != len || y.length + 1 != len + mp || mp = 0 then "bad-op"
+      else
+      let x := x.toArray; let y := y.toArray
+      perVariant "PITCH_XCORR_IMPL" vs (fun sym =>
+        let all := fun (f : Nat → Int) => f32List ((List.range mp).map f)
+        if sym = "celt_pitch_xcorr_c" then
+          -- inner kernels of the C function: what `xcorr_kernel` / `celt_inner_prod` resolve to at any arch
+          match dispatched "XCORR_KERNEL_IMPL" 0, dispatched "CELT_INNER_PROD_IMPL" 0 with
+          | some "xcorr_kernel_sse", some "celt_inner_prod_sse" => some (all (pitchXcorrC (mem x) (mem y) len mp))
+          | some "xcorr_kernel_c", some "celt_inner_prod_c" => some (all (pitchXcorrCPortable (mem x) (mem y) len mp))
+          | _, _ => none
+        else if sym = "celt_pitch_xcorr_avx2" then some (all (pitchXcorrAvx2 (mem x) (mem y) len mp))
+        else none)
     | _, _, _, _ => "bad-op"
-  | ["comb", t, n, g10, g11, g12, xs] =>
-    match parseNat t, parseNat n, parseInt g10, parseInt g11, parseInt g12, parseIntList xs with
-    | some t, some n, some g10, some g11, some g12, some x =>
-      if x.length != t + 2 + n then "bad-op"
-      else f32List ((List.range (n / 4 * 4)).map (combSse (mem x) t g10 g11 g12))
-    | _, _, _, _, _, _ => "bad-op"
-  | ["combip", t, n, g10, g11, g12, xs] =>
+  | ["comb", vs, t, n, g10, g11, g12, xs] =>
     match parseNat t, parseNat n, parseInt g10, parseInt g11, parseInt g12, parseIntList xs with
     | some t, some n, some g10, some g11, some g12, some x =>
       if x.length != t + 2 + n then "bad-op"
       else
-        let r := combInPlace x.toArray t (n / 4 * 4) g10 g11 g12
-        f32List ((List.range (n / 4 * 4)).map (fun i => r.getD (i + t + 2) 0))
+      let x := x.toArray
+      perVariant "COMB_FILTER_CONST_IMPL" vs (fun sym =>
+        if sym = "comb_filter_const_c" then
+          some (f32List ((List.range (n / 4 * 4)).map (combC (mem x) t g10 g11 g12)))
+        else if sym = "comb_filter_const_sse" then
+          some (f32List ((List.range (n / 4 * 4)).map (combSse (mem x) t g10 g11 g12)))
+        else none)
     | _, _, _, _, _, _ => "bad-op"
-  | ["flp", v, xs, ys] =>
+  | ["combip", vs, t, n, g10, g11, g12, xs] =>
+    match parseNat t, parseNat n, parseInt g10, parseInt g11, parseInt g12, parseIntList xs with
+    | some t, some n, some g10, some g11, some g12, some x =>
+      if x.length != t + 2 + n then "bad-op"
+      else
+      let x := x.toArray
+      perVariant "COMB_FILTER_CONST_IMPL" vs (fun sym =>
+        if sym = "comb_filter_const_c" || sym = "comb_filter_const_sse" then
+          let r := combInPlace x t (n / 4 * 4) g10 g11 g12
+          some (f32List ((List.range (n / 4 * 4)).map (fun i => r.getD (i + t + 2) 0)))
+        else none)
+    | _, _, _, _, _, _ => "bad-op"
+  | ["flp", vs, xs, ys] =>
     match parseIntList xs, parseIntList ys with
     | some x, some y =>
       if x.length != y.length then "bad-op"
-      else if v = "c" then f64Bits (innerProductFlpC (mem x) (mem y) x.length)
-      else if v = "avx2" then f64Bits (innerProductFlpAvx2 (mem x) (mem y) x.length)
-      else "bad-op"
+      else
+      let x := x.toArray; let y := y.toArray
+      perVariant "SILK_INNER_PRODUCT_FLP_IMPL" vs (fun sym =>
+        if sym = "silk_inner_product_FLP_c" then some (f64Bits (innerProductFlpC (mem x) (mem y) x.size))
+        else if sym = "silk_inner_product_FLP_avx2" then some (f64Bits (innerProductFlpAvx2 (mem x) (mem y) x.size))
+        else none)
     | _, _ => "bad-op"
-  | ["vqwmat", v, xx, xX, cb, cbg, cl, subfr, maxg, l] =>
+  | ["vqwmat", vs, xx, xX, cb, cbg, cl, subfr, maxg, l] =>
     match parseIntList xx, parseIntList xX, parseIntList cb, parseIntList cbg, parseIntList cl,
           parseInt subfr, parseInt maxg, parseNat l with
     | some xx, some xX, some cb, some cbg, some cl, some subfr, some maxg, some l =>
       if xx.length != 25 || xX.length != 5 || cb.length != 5 * l || cbg.length != l || cl.length != l then "bad-op"
       else
         let inp : VQIn := ⟨xx, xX, cb, cbg, cl, subfr, maxg, l⟩
-        let r := if v = "c" then some (vqWMatEC_c inp) else if v = "sse" then some (vqWMatEC_sse inp) else none
-        match r with
-        | none => "bad-op"
-        | some r =>
+        let pr := fun (r : VQBest) =>
           let g := match r.gain with | some g => toString g | none => "-"
-          s!"ind={r.ind} res={r.resNrg} rate={r.rateDist} gain={g}"
+          s!"{r.ind}:{r.resNrg}:{r.rateDist}:{g}"
+        perVariant "SILK_VQ_WMAT_EC_IMPL" vs (fun sym =>
+          if sym = "silk_VQ_WMat_EC_c" then some (pr (vqWMatEC_c inp))
+          else if sym = "silk_VQ_WMat_EC_sse4_1" then some (pr (vqWMatEC_sse inp))
+          else none)
     | _, _, _, _, _, _, _, _ => "bad-op"
   | ["selectarch", nIds, ecx1, edx1, ebx7, cap] =>
     match parseNat nIds, parseNat ecx1, parseNat edx1, parseNat ebx7 with
